@@ -154,12 +154,12 @@ pub fn any_intensity() -> Intensity {
 pub fn any_pen() -> Pen {
     let attrs = any_u8();
     assume(attrs & !0x1f == 0);
-    Pen {
-        foreground: if any_bool() { Some(any_color()) } else { None },
-        background: if any_bool() { Some(any_color()) } else { None },
-        intensity: any_intensity(),
-        attrs,
-    }
+    let mut p = Pen::default();
+    p.foreground = if any_bool() { Some(any_color()) } else { None };
+    p.background = if any_bool() { Some(any_color()) } else { None };
+    p.intensity = any_intensity();
+    p.attrs = attrs;
+    p
 }
 
 pub fn pen_ok(p: &Pen) -> bool {
@@ -176,10 +176,10 @@ pub fn any_line(cols: usize) -> Line {
     for _ in 0..cols {
         cells.push(any_cell());
     }
-    Line {
-        cells,
-        wrapped: any_bool(),
-    }
+    let mut l = Line::blank(0, Pen::default());
+    l.cells = cells;
+    l.wrapped = any_bool();
+    l
 }
 
 /// a line of exactly `cols` cells with a *cheap* symbolic content: one symbolic pen for the
@@ -190,10 +190,10 @@ pub fn any_line_onepen(cols: usize) -> Line {
     for _ in 0..cols {
         cells.push(Cell::new(any_char(), pen));
     }
-    Line {
-        cells,
-        wrapped: any_bool(),
-    }
+    let mut l = Line::blank(0, Pen::default());
+    l.cells = cells;
+    l.wrapped = any_bool();
+    l
 }
 
 pub fn blank_line(cols: usize) -> Line {
